@@ -289,7 +289,7 @@ def count_events(path: Path, pred: Callable[[Event], bool], depth0: bool = False
 def path_lines(path: Path, mark: int = None, limit: int = 40) -> List[str]:
     lines = []
     for index, event in enumerate(path.events):
-        if event.kind in ('enter', 'leave', 'finally', 'iter-next', 'iter-end'):
+        if event.kind in ('enter', 'leave', 'finally', 'iter-next', 'iter-end', 'iter-stop'):
             if index != mark:
                 continue
         prefix = '>> ' if index == mark else '   '
@@ -363,6 +363,55 @@ def reaching_store(path: Path, index: int, name: str, fid=Ellipsis):
     return None
 
 
+_BINDINGS = {}
+
+
+def _frame_bindings(path: Path, index: int):
+    """parameter -> (argument expression, position of the call) for an event inside a
+    callee that was run inline without recorded bindings (truth-inlined calls)"""
+    event = path.events[index]
+    fid = event.data.get('fid')
+    key = (id(path), fid)
+    if key in _BINDINGS and _BINDINGS[key][0] is path:
+        return _BINDINGS[key][1]
+    found = None
+    for pos in range(index - 1, -1, -1):
+        other = path.events[pos]
+        if other.kind == 'enter' and other.data.get('fid') != fid and \
+                pos + 1 < len(path.events) and \
+                path.events[pos + 1].data.get('fid') == fid:
+            call = other.node.value if isinstance(other.node, ast.Await) else other.node
+            callee = other.data.get('callee')
+            if isinstance(call, ast.Call) and callee is not None and \
+                    not isinstance(callee.fn.node, ast.Lambda):
+                found = _bind_call(call, callee.fn, pos)
+            break
+        if other.data.get('fid') == fid and other.data.get('bind') is not None:
+            found = other.data['bind']
+            break
+    if len(_BINDINGS) > 50000:
+        _BINDINGS.clear()
+    _BINDINGS[key] = (path, found)
+    return found
+
+
+def _bind_call(call: ast.Call, fn, position: int) -> dict:
+    args = fn.node.args
+    params = list(args.posonlyargs) + list(args.args)
+    if fn.cls is not None and not fn.is_static and isinstance(call.func, ast.Attribute):
+        params = params[1:]
+    bindings = {}
+    for param, arg in zip(params, call.args):
+        if isinstance(arg, ast.Starred):
+            break
+        bindings[param.arg] = (arg, position)
+    names = {p.arg for p in params + list(args.kwonlyargs)}
+    for kw in call.keywords:
+        if kw.arg in names:
+            bindings[kw.arg] = (kw.value, position)
+    return bindings
+
+
 def value_expr(path: Path, index: int, expr, depth: int = 6, keep_clock: bool = True,
                keep=(), frame=None, trace: list = None):
     """
@@ -373,6 +422,8 @@ def value_expr(path: Path, index: int, expr, depth: int = 6, keep_clock: bool = 
     import copy
     event = path.events[index] if index < len(path.events) else None
     bind = event.data.get('bind') if event is not None else None
+    if bind is None and event is not None:
+        bind = _frame_bindings(path, index)
     fn = event.fn if event is not None else None
     tree = copy.deepcopy(expr)
     original = {id(c): o for o, c in zip(ast.walk(expr), ast.walk(tree))}
@@ -559,9 +610,9 @@ class SeqMap:
     """``name`` holds ``[elt(var) for var in src]``, built by a comprehension or by an
     append loop; ``stmts`` are the statements that build it"""
 
-    def __init__(self, name, src, var, elt, stmts, kind):
+    def __init__(self, name, src, var, elt, stmts, kind, cond=None):
         self.name, self.src, self.var, self.elt = name, src, var, elt
-        self.stmts, self.kind = stmts, kind
+        self.stmts, self.kind, self.cond = stmts, kind, cond
 
     def __repr__(self):
         return '<%s = [%s for %s in %s] (%s)>' % (
@@ -657,10 +708,11 @@ def sequence_maps(fnode) -> dict:
                 continue
             if isinstance(value, ast.ListComp):
                 gens = value.generators
-                if len(gens) == 1 and not gens[0].ifs and not gens[0].is_async and \
+                if len(gens) == 1 and len(gens[0].ifs) <= 1 and not gens[0].is_async and \
                         isinstance(gens[0].target, ast.Name):
                     found = SeqMap(target, gens[0].iter, gens[0].target.id, value.elt,
-                                   [stmt], 'comprehension')
+                                   [stmt], 'comprehension',
+                                   cond=gens[0].ifs[0] if gens[0].ifs else None)
                     if target != '<return>':
                         stores, calls = _mutations(fnode, target)
                         if len(stores) != 1 or calls:
@@ -678,14 +730,18 @@ def sequence_maps(fnode) -> dict:
                 continue
             for later in block[index + 1:]:
                 if isinstance(later, ast.For) and any(c is calls[0] for c in ast.walk(later)):
-                    appends = [k for k, b in enumerate(later.body)
+                    body, cond = later.body, None
+                    if len(body) == 1 and isinstance(body[0], ast.If) and not body[0].orelse:
+                        # for x in S: if c(x): L.append(f(x))
+                        body, cond = body[0].body, body[0].test
+                    appends = [k for k, b in enumerate(body)
                                if isinstance(b, ast.Expr) and b.value is calls[0]]
                     if later.orelse or not isinstance(later.target, ast.Name) or \
-                            not straight_line(later.body) or len(appends) != 1:
+                            not straight_line(body) or len(appends) != 1:
                         break
-                    elt = substitute_temps(later.body[:appends[0]], calls[0].args[0])
+                    elt = substitute_temps(body[:appends[0]], calls[0].args[0])
                     result[target] = SeqMap(target, later.iter, later.target.id, elt,
-                                            [stmt, later], 'append-loop')
+                                            [stmt, later], 'append-loop', cond=cond)
                     break
     return result
 
@@ -774,7 +830,8 @@ def iterations(path: Path, depth0: bool = True) -> list:
         stop = len(path.events)
         for later in range(index + 1, len(path.events)):
             other = path.events[later]
-            if other.kind in ('iter-next', 'iter-end') and other.node is event.node and \
+            if other.kind in ('iter-next', 'iter-end', 'iter-stop') and \
+                    other.node is event.node and \
                     other.data.get('fid') == event.data.get('fid'):
                 stop = later
                 break
@@ -786,3 +843,41 @@ def iterations(path: Path, depth0: bool = True) -> list:
 def loop_completed(path: Path, node) -> bool:
     """the loop ran to exhaustion on this path (no break / return out of it)"""
     return any(e.kind == 'iter-end' and e.node is node for e in path.events)
+
+
+def over_x(expr, var: str) -> str:
+    """text of ``expr`` with the loop variable renamed to ``x_``"""
+    import copy
+
+    class Sub(ast.NodeTransformer):
+        def visit_Name(self, node):
+            return ast.Name(id='x_', ctx=node.ctx) if node.id == var else node
+    return ast.unparse(Sub().visit(copy.deepcopy(expr)))
+
+
+def mapped_sequence(fn_node, expr):
+    """
+    (source text, element over x_, filter over x_ or None) when ``expr`` denotes
+    ``f(x) for x in S [if c(x)]``: a generator expression / list comprehension, such a
+    thing wrapped in tuple()/list(), a starred form of it, or a local list built by the
+    equivalent append loop.  None otherwise.
+    """
+    if isinstance(expr, ast.Starred):
+        expr = expr.value
+    if isinstance(expr, ast.Call) and isinstance(expr.func, ast.Name) and \
+            expr.func.id in ('tuple', 'list') and len(expr.args) == 1 and not expr.keywords:
+        expr = expr.args[0]
+    if isinstance(expr, (ast.GeneratorExp, ast.ListComp)) and len(expr.generators) == 1 \
+            and not expr.generators[0].is_async and \
+            isinstance(expr.generators[0].target, ast.Name) and \
+            len(expr.generators[0].ifs) <= 1:
+        gen = expr.generators[0]
+        cond = over_x(gen.ifs[0], gen.target.id) if gen.ifs else None
+        return ast.unparse(gen.iter), over_x(expr.elt, gen.target.id), cond
+    if isinstance(expr, ast.Name) and fn_node is not None:
+        found = sequence_maps(fn_node).get(expr.id)
+        if found is not None:
+            cond = over_x(found.cond, found.var) if getattr(found, 'cond', None) is not None \
+                else None
+            return ast.unparse(found.src), over_x(found.elt, found.var), cond
+    return None
